@@ -308,5 +308,49 @@ pub fn undefined_elsewhere() -> Vec<(Input, &'static str, bool)> {
         items.extend(extra.clone());
         out.push((mk(items), "extern_value", defined));
     }
+    // the vftable struct generated for a type is a defined name in every position
+    for pos in ["field_ptr", "field_value", "impl_param", "impl_return", "vfunc_param", "extern_value_ptr", "extern_value"] {
+        let mut foo = TypeS::new("Foo");
+        foo.vft = Some(VftS { size: None, funcs: vec![FuncS::new("v")] });
+        foo.fields = vec![FieldS::new("x", MTy::b("u8").cptr())];
+        let vt = MTy::user("FooVftable");
+        let mut r = TypeS::new("T1");
+        r.fields = vec![FieldS::new("y", MTy::b("u8").cptr())];
+        let mut items = vec![];
+        let mut f = FuncS::new("g");
+        match pos {
+            "field_ptr" => r.fields.push(FieldS::new("p", vt.clone().cptr())),
+            "field_value" => r.fields.push(FieldS::new("p", vt.clone())),
+            "impl_param" => {
+                f.address = Some(0x100);
+                f.args = vec![("p".into(), vt.clone().cptr())];
+                items.push(Item::Impl { name: "T1".into(), funcs: vec![f] });
+            }
+            "impl_return" => {
+                f.address = Some(0x100);
+                f.ret = Some(vt.clone().cptr());
+                items.push(Item::Impl { name: "T1".into(), funcs: vec![f] });
+            }
+            "vfunc_param" => {
+                f.args = vec![("p".into(), vt.clone().cptr())];
+                r.vft = Some(VftS { size: None, funcs: vec![f] });
+            }
+            "extern_value_ptr" => items.push(Item::ExternValue { name: "gv".into(), public: true, ty: vt.clone().cptr(), address: Some(0x2000) }),
+            _ => items.push(Item::ExternValue { name: "gv".into(), public: true, ty: vt.clone(), address: Some(0x2000) }),
+        }
+        // referrer declared before and after the owner
+        for owner_first in [true, false] {
+            let mut all = vec![];
+            if owner_first {
+                all.push(Item::Type(foo.clone()));
+            }
+            all.push(Item::Type(r.clone()));
+            all.extend(items.clone());
+            if !owner_first {
+                all.push(Item::Type(foo.clone()));
+            }
+            out.push((mk(all), if pos.starts_with("extern") { "generated_vftable_in_extern_value" } else { "generated_vftable_name" }, true));
+        }
+    }
     out
 }
